@@ -165,8 +165,8 @@ def hexs(s):
 
 
 class Replay:
-    def __init__(self):
-        self.bin = build_replay()
+    def __init__(self, bin=None):
+        self.bin = bin or build_replay()
         self.p = None
         self.calls = 0
 
